@@ -346,6 +346,7 @@ def apply_reference(repo):
             _merge_renamed_locals(repo.funcs[q])
             _drop_self_assignments(repo.funcs[q].node)
             _thread_none_tests(repo.funcs[q].node)
+    repo.inlined_local_functions = inline_local_functions(repo, ref)
     repo.struct_objects = expand_struct_objects(repo, ref)
     repo.star_forms = expand_star_forms(repo, ref)
     repo.unrolled_tables = unroll_constant_tables(repo, ref)
@@ -2264,6 +2265,79 @@ class _SubstNames(ast.NodeTransformer):
         if node.name in self.mapping:
             node.name = self.mapping[node.name]
         return node
+
+
+def inline_local_functions(repo, ref):
+    """def f(p, q): <statements>   in the body of a function, where f is a name the reference version does not have, the
+    statements bind no name and contain no return / yield / nested scope, and f is used only in whole-statement calls
+    `f(a, b)` with names or constants as arguments, later in the same function: every call is the statements with the
+    arguments in place of the parameters (a closure reads the enclosing function's variables when it runs, which is where the
+    inlined statements read them), and the definition is removed."""
+    done = {}
+    for q, fi in list(repo.funcs.items()):
+        if fi.is_lambda or q not in ref:
+            continue
+        ref_locals = {n for n, _ in ref[q]["locals"]} | set(ref[q]["params"])
+        for d in [s_ for s_ in fi.node.body if isinstance(s_, ast.FunctionDef)]:
+            a = d.args
+            if d.name in ref_locals or d.decorator_list or a.vararg or a.kwarg or a.kwonlyargs or a.posonlyargs or a.defaults:
+                continue
+            params = [x.arg for x in a.args]
+            inner = [s_ for s_ in d.body if not (isinstance(s_, ast.Expr) and isinstance(s_.value, ast.Constant))]
+            if not inner:
+                continue
+            if any(isinstance(x, (ast.Return, ast.Yield, ast.YieldFrom, ast.Await, ast.Global, ast.Nonlocal, ast.FunctionDef, ast.AsyncFunctionDef, ast.ClassDef, ast.Lambda,
+                                  ast.ListComp, ast.SetComp, ast.DictComp, ast.GeneratorExp, ast.NamedExpr, ast.ExceptHandler, ast.Import, ast.ImportFrom))
+                   or (isinstance(x, ast.Name) and isinstance(x.ctx, (ast.Store, ast.Del))) for s_ in inner for x in ast.walk(s_)):
+                continue
+            if sum(1 for x in ast.walk(fi.node) if (isinstance(x, (ast.FunctionDef, ast.AsyncFunctionDef, ast.ClassDef)) and x.name == d.name)
+                   or (isinstance(x, ast.arg) and x.arg == d.name)
+                   or (isinstance(x, ast.Name) and x.id == d.name and isinstance(x.ctx, (ast.Store, ast.Del)))) != 1:
+                continue
+            k = [i for i, s_ in enumerate(fi.node.body) if s_ is d][0]
+            later = {id(x) for s_ in fi.node.body[k + 1:] for x in ast.walk(s_)}
+            own = {id(x) for x in walk_own(fi.node)}
+            sites = []
+            ok = True
+            for x in ast.walk(fi.node):
+                if not (isinstance(x, ast.Name) and x.id == d.name):
+                    continue
+                par = getattr(x, "_parent", None)
+                st = getattr(par, "_parent", None)
+                if not (isinstance(x.ctx, ast.Load) and id(x) in own and id(x) in later and isinstance(par, ast.Call) and par.func is x and isinstance(st, ast.Expr)
+                        and st.value is par and not par.keywords and len(par.args) == len(params)
+                        and all(isinstance(a_, (ast.Name, ast.Constant)) for a_ in par.args)):
+                    ok = False
+                    break
+                sites.append((st, par))
+            if not ok or not sites:
+                continue
+            blocks = _blocks(fi.node)
+            for st, call in sites:
+                mapping = {p_: ast.unparse(a_) for p_, a_ in zip(params, call.args)}
+                new = []
+                for s_ in inner:
+                    c_ = ast.parse(ast.unparse(s_)).body[0]
+                    c_ = _SubstNames(mapping).visit(c_)
+                    ast.fix_missing_locations(c_)
+                    c_ = ast.parse(ast.unparse(c_)).body[0]
+                    for y in ast.walk(c_):
+                        ast.copy_location(y, st)
+                        for z in ast.iter_child_nodes(y):
+                            z._parent = y
+                    new.append(c_)
+                for owner, field, blk in blocks:
+                    idx = [i for i, s_ in enumerate(blk) if s_ is st]
+                    if idx:
+                        for c_ in new:
+                            c_._parent = owner
+                        blk[idx[0]:idx[0] + 1] = new
+                        break
+            fi.node.body.remove(d)
+            repo.funcs.pop("%s.%s" % (q, d.name), None)
+            _invalidate(fi.node)
+            done.setdefault(q, []).append(d.name)
+    return done
 
 
 def inline_new_helpers(repo, full_ref):
